@@ -133,6 +133,9 @@ fn main() {
             cur_call: RefCell::new(None),
             mut_methods: &mut_methods,
             loops: RefCell::new(vec![]),
+            thunks: RefCell::new(vec![]),
+            writebacks: RefCell::new(vec![]),
+            hoist: RefCell::new(None),
             ambient: RefCell::new(vec![]),
         };
         match t.function() {
@@ -319,6 +322,7 @@ fn main() {
                 "lemma": lemma,
                 "gen_lines": lines,
                 "bridge": bridge,
+                "via": f.via,
                 "deps": o.deps.iter().map(|&d| ctx.fns[d].gen.clone()).collect::<Vec<_>>(),
             }));
         }
